@@ -124,6 +124,16 @@ def oracle(ck, tier, deep):
         except Exception as e:
             ck.violation(dict(sig, clause="exception"), rep, f"{type(e).__name__}: {e}")
             continue
+        # "any rmax choice": the radii returned are 0 … rmax with rmax as documented for each keyword (fitting inside = distance to
+        # the nearer edge, touching = to the farther one), so that every radius with the full angular range is reported
+        row, col = origin
+        hor, HOR, ver, VER = min(col, w - 1 - col), max(col, w - 1 - col), min(row, h - 1 - row), max(row, h - 1 - row)
+        want_rmax = rmax if isinstance(rmax, int) else {"hor": hor, "ver": ver, "HOR": HOR, "VER": VER, "min": min(hor, ver), "max": max(hor, ver),
+                                                        "MIN": min(HOR, VER), "MAX": max(HOR, VER)}.get(rmax)
+        if (want_rmax is not None and cn.shape[1] != want_rmax + 1) or (rmax == "all" and cn.shape[1] < max(HOR, VER) + 1):
+            ck.violation(dict(sig, clause="radial-range"), rep, f"rmax={rmax!r} with origin {origin} in a {h}x{w} image returned radii 0..{cn.shape[1] - 1}, "
+                                                                f"documented largest radius {want_rmax if want_rmax is not None else '>= ' + str(max(HOR, VER))}")
+            continue
         # radii where the image contains the full angular range the orders need and at least a few pixels:
         # the full circle (odd: upper and lower half) of radius R lies inside the frame, R >= 6
         row, col = origin
@@ -156,6 +166,49 @@ def oracle(ck, tier, deep):
                 if err2 > tol2:
                     ck.violation(dict(sig, clause="exact-recovery-object-reuse"), dict(rep, second_shape=[h2, w2], coeffs2=coeffs2.tolist()),
                                  f"the same Distributions object, second image of shape {(h2, w2)} after {(h, w)}: coefficients off by {err2:.3g}")
+    # "all images": the memory layout of the array is not part of the image — column-major data (a transposed view, np.rot90,
+    # data read from Fortran/MATLAB files) give the coefficients of the same pixels; origins that need no folding included
+    for _ in range(60 if not deep else 500):
+        h, w = (int(v) for v in rng.integers(15, 36, size=2))
+        odd = bool(rng.integers(0, 2))
+        order = int(rng.choice([1, 3] if odd else [0, 2, 4]))
+        N = 1 + (order if odd else order // 2)
+        place = int(rng.integers(0, 3))
+        rows_ = [0, h - 1] if not odd else [int(rng.integers(3, h - 3))]
+        origin = (int(rng.choice(rows_)), int(rng.choice([0, w - 1]))) if place < 2 else (int(rng.integers(0, h)), int(rng.integers(0, w)))
+        rmax = ["MAX", "all", "HOR", "VER", "MIN", int(max(h, w) * 0.8)][int(rng.integers(0, 6))]
+        method = ["nearest", "linear"][int(rng.integers(0, 2))]
+        usin = bool(rng.integers(0, 2))
+        coeffs = rng.normal(size=N)
+        im, _ = synth_image((h, w), origin, coeffs, odd)
+        wt = None if rng.random() < 0.5 else rng.random((h, w)) + 0.2
+        layout = ["asfortranarray", "transposed-view", "rot90"][int(rng.integers(0, 3))]
+        ck.count(("S.layout", odd, method, usin, wt is None, place < 2, layout), suite="S.recover")
+        rep = dict(shape=[h, w], origin=list(origin), rmax=rmax, order=order, odd=odd, method=method, use_sin=usin, weights=wt is not None,
+                   layout=layout, coeffs=coeffs.tolist())
+        sig = dict(site="Distributions", clause="memory-layout", method=method)
+
+        def relayout(a):
+            if a is None:
+                return None
+            if layout == "asfortranarray":
+                return np.asfortranarray(a)
+            if layout == "transposed-view":
+                return np.ascontiguousarray(a.T).T
+            return np.rot90(np.ascontiguousarray(np.rot90(a, -1)), 1)
+        try:
+            ref = quiet(vmi.Distributions(origin=origin, rmax=rmax, order=order, odd=odd, use_sin=usin, weights=wt, method=method).image, im).cos()
+            imF, wtF = relayout(im), relayout(wt)
+            assert np.array_equal(imF, im)
+            got = quiet(vmi.Distributions(origin=origin, rmax=rmax, order=order, odd=odd, use_sin=usin, weights=wtF, method=method).image, imF).cos()
+        except Exception as e:
+            ck.violation(dict(sig, clause="exception"), rep, f"{type(e).__name__}: {e}")
+            continue
+        fin = np.isfinite(ref) & np.isfinite(got)
+        if got.shape != ref.shape or not np.array_equal(np.isfinite(ref), np.isfinite(got)) or \
+                np.abs(got[fin] - ref[fin]).max(initial=0.0) > 1e-9 * max(1.0, np.abs(ref[fin]).max(initial=0.0)):
+            ck.violation(sig, rep, f"the same pixels stored column-major ({layout}) give different coefficients "
+                                   f"(max difference {np.abs(got[fin] - ref[fin]).max(initial=0.0):.3g})")
     # raw camera frames: an image stored as uint8 / uint16 / int32 is analysed as its float64 copy
     for _ in range(20 if not deep else 200):
         h, w = (int(v) for v in rng.integers(15, 40, size=2))
